@@ -12,111 +12,302 @@ use dasp_window::{Hann, Rectangle, Window as WindowType};
 use hx_common::*;
 use serde_json::{json, Value};
 
+/// the two ways the library offers to build a window / windower of a given kind: the generic
+/// constructors (`Window::new`, `Windower::new`) and the named ones (`window::hann(n)`,
+/// `Windower::hann(..)`, `window::rectangle(n)`, `Windower::rectangle(..)`)
+pub trait Kind: WindowType<f64, Output = f64> + Clone {
+    fn named_window<F: Frame>(n: usize) -> Window<F, Self>;
+    fn named_windower<'a, F: 'a + Frame>(frames: &'a [F], bin: usize, hop: usize) -> Windower<'a, F, Self>;
+}
+impl Kind for Hann {
+    fn named_window<F: Frame>(n: usize) -> Window<F, Hann> {
+        dasp_signal::window::hann(n)
+    }
+    fn named_windower<'a, F: 'a + Frame>(frames: &'a [F], bin: usize, hop: usize) -> Windower<'a, F, Hann> {
+        Windower::hann(frames, bin, hop)
+    }
+}
+impl Kind for Rectangle {
+    fn named_window<F: Frame>(n: usize) -> Window<F, Rectangle> {
+        dasp_signal::window::rectangle(n)
+    }
+    fn named_windower<'a, F: 'a + Frame>(frames: &'a [F], bin: usize, hop: usize) -> Windower<'a, F, Rectangle> {
+        Windower::rectangle(frames, bin, hop)
+    }
+}
+fn make_window<F: Frame, W: Kind>(named: bool, n: usize) -> Window<F, W> {
+    if named { W::named_window::<F>(n) } else { Window::<F, W>::new(n) }
+}
+
+fn hint_json(h: Option<(usize, Option<usize>)>) -> Value {
+    match h {
+        None => r_panic(),
+        Some((lo, hi)) => r_val(json!({"lo": big_u(lo as u128), "hi": match hi {
+            Some(x) => r_some(big_u(x as u128)),
+            None => json!({"k":"none","v": big_u(0)}),
+        }})),
+    }
+}
+
 fn take_window<S, W>(out: &mut Out, cfg: &Value, ops: &[Value])
 where
-    S: Enc,
+    S: Enc + Default,
     [S; 1]: Frame<Sample = S>,
-    W: WindowType<f64, Output = f64>,
+    W: Kind,
 {
     let n = cfg["n"].as_u64().unwrap() as usize;
-    let built = catch(|| Window::<[S; 1], W>::new(n));
-    let mut w = match built {
+    let named = cfg["ctor"].as_str() == Some("named");
+    let built = catch(|| make_window::<[S; 1], W>(named, n));
+    // slot 0 = the instance `take` reads; slots 1, 2 = further instances (`new`, `clone`)
+    let mut slots: Vec<Option<Window<[S; 1], W>>> = vec![None, None, None];
+    match built {
         None => {
             out.line(&json!({"ev":"reset","comp":"window","cfg":cfg,"r":r_panic(),"o":{"ok":false}}));
             return;
         }
-        Some(w) => w,
+        Some(w) => slots[0] = Some(w),
     };
     out.line(&json!({"ev":"reset","comp":"window","cfg":cfg,"r":r_unit(),"o":{"ok":true}}));
     for op in ops {
-        assert_eq!(op["ev"], "take");
-        let k = op["a"]["n"].as_u64().unwrap() as usize;
-        let mut vals: Vec<S> = Vec::with_capacity(k);
-        let mut phs: Vec<f64> = Vec::with_capacity(k);
-        let mut ended = false;
-        let (r, h, _) = measured(|| {
-            catch(|| {
-                for _ in 0..k {
-                    // the phase the next value will be sampled at (public field; a clone is stepped)
-                    phs.push(w.phase.clone().next_phase());
-                    match w.next() {
-                        Some(f) => vals.push(*f.channel(0).unwrap()),
-                        None => {
-                            ended = true;
-                            break;
+        let ev = op["ev"].as_str().unwrap();
+        let a = &op["a"];
+        let wi = a["w"].as_u64().unwrap_or(0) as usize;
+        match ev {
+            "take" => {
+                let w = slots[0].as_mut().expect("window slot 0");
+                let k = a["n"].as_u64().unwrap() as usize;
+                let mut vals: Vec<S> = Vec::with_capacity(k);
+                let mut phs: Vec<f64> = Vec::with_capacity(k);
+                let mut ended = false;
+                let (r, h, _) = measured(|| {
+                    catch(|| {
+                        for _ in 0..k {
+                            // the phase the next value will be sampled at (public field; a clone is stepped)
+                            phs.push(w.phase.clone().next_phase());
+                            match w.next() {
+                                Some(f) => vals.push(*f.channel(0).unwrap()),
+                                None => {
+                                    ended = true;
+                                    break;
+                                }
+                            }
                         }
-                    }
+                    })
+                });
+                let r = match r {
+                    None => r_panic(),
+                    Some(()) => r_items(Value::Array(vals.iter().map(|v| v.enc()).collect())),
+                };
+                out.ev(
+                    "take",
+                    json!({"n": k}),
+                    r,
+                    json!({"ok": true, "ended": ended, "ph": Value::Array(phs.iter().map(|p| f64f(*p)).collect())}),
+                    h,
+                );
+            }
+            "new" => {
+                let c = catch(|| make_window::<[S; 1], W>(named, n));
+                let ok = c.is_some();
+                slots[wi] = c;
+                out.ev("new", json!({"w": wi}), if ok { r_unit() } else { r_panic() }, json!({"ok": true}), [0, 0, 0]);
+            }
+            "rewind" => {
+                // the public `phase` field assigned from a fresh window of the same length
+                let r = catch(|| {
+                    let fresh = make_window::<[S; 1], W>(named, n);
+                    slots[wi].as_mut().expect("window slot").phase = fresh.phase;
+                });
+                out.ev("rewind", json!({"w": wi}), if r.is_some() { r_unit() } else { r_panic() }, json!({"ok": true}), [0, 0, 0]);
+            }
+            "clone" => {
+                let to = a["to"].as_u64().unwrap() as usize;
+                let c = catch(|| slots[wi].as_ref().expect("window slot").clone());
+                let ok = c.is_some();
+                if ok {
+                    slots[to] = c;
                 }
-            })
-        });
-        let r = match r {
-            None => r_panic(),
-            Some(()) => r_items(Value::Array(vals.iter().map(|v| v.enc()).collect())),
-        };
-        out.ev(
-            "take",
-            json!({"n": k}),
-            r,
-            json!({"ok": true, "ended": ended, "ph": Value::Array(phs.iter().map(|p| f64f(*p)).collect())}),
-            h,
-        );
+                out.ev("clone", json!({"w": wi, "to": to}), if ok { r_unit() } else { r_panic() }, json!({"ok": true}), [0, 0, 0]);
+            }
+            "next" | "nth" => {
+                let k = a["k"].as_u64().unwrap_or(0) as usize;
+                let w = slots[wi].as_mut().expect("window slot");
+                let (r, h, _) = measured(|| catch(|| if ev == "next" { w.next() } else { w.nth(k) }));
+                let r = match r {
+                    None => r_panic(),
+                    Some(Some(f)) => r_some(f.channel(0).unwrap().enc()),
+                    Some(None) => json!({"k":"none","v": S::default().enc()}),
+                };
+                out.ev(ev, json!({"w": wi, "k": k}), r, json!({"ok": true}), h);
+            }
+            "step_by" | "takeby" => {
+                let st = a["s"].as_u64().unwrap_or(1) as usize;
+                let m = a["m"].as_u64().unwrap() as usize;
+                let w = slots[wi].as_mut().expect("window slot");
+                let mut vals: Vec<S> = Vec::with_capacity(m);
+                let (r, h, _) = measured(|| {
+                    catch(|| {
+                        if ev == "takeby" {
+                            for f in w.by_ref().take(m) {
+                                vals.push(*f.channel(0).unwrap());
+                            }
+                        } else {
+                            for f in w.by_ref().step_by(st).take(m) {
+                                vals.push(*f.channel(0).unwrap());
+                            }
+                        }
+                    })
+                });
+                let r = match r {
+                    None => r_panic(),
+                    Some(()) => r_items(Value::Array(vals.iter().map(|v| v.enc()).collect())),
+                };
+                out.ev(ev, json!({"w": wi, "s": st, "m": m}), r, json!({"ok": true}), h);
+            }
+            "size_hint" => {
+                let w = slots[wi].as_ref().expect("window slot");
+                let (r, h, _) = measured(|| catch(|| w.size_hint()));
+                out.ev("size_hint", json!({"w": wi}), hint_json(r), json!({"ok": true}), h);
+            }
+            _ => panic!("unknown window op {}", ev),
+        }
     }
 }
 
-fn windower<F, W>(out: &mut Out, cfg: &Value, ops: &[Value], hann: bool)
+/// frames of a chunk (an endless iterator) into a buffer allocated beforehand.  The first `bin` frames read in
+/// one of four ways: 0 next(), 1 by_ref().take(bin), 2 nth(0), 3 the first half by next(), the rest from a
+/// clone of the chunk; or a part of them: 4 nth(1) repeated (positions 1, 3, ... below bin), 5 step_by(2)
+/// (positions 0, 2, ...), 6 skip(1) (positions 1 .. bin-1)
+fn head<I: Iterator + Clone>(mut c: I, bin: usize, via: u64, buf: &mut Vec<I::Item>) {
+    match via {
+        4 => {
+            for _ in 0..(bin / 2) {
+                match c.nth(1) {
+                    Some(f) => buf.push(f),
+                    None => break,
+                }
+            }
+        }
+        5 => {
+            for f in c.step_by(2).take((bin + 1) / 2) {
+                buf.push(f);
+            }
+        }
+        6 => {
+            for f in c.skip(1).take(bin.saturating_sub(1)) {
+                buf.push(f);
+            }
+        }
+        1 => {
+            for f in c.by_ref().take(bin) {
+                buf.push(f);
+            }
+        }
+        2 => {
+            for _ in 0..bin {
+                match c.nth(0) {
+                    Some(f) => buf.push(f),
+                    None => break,
+                }
+            }
+        }
+        3 => {
+            for _ in 0..(bin / 2) {
+                match c.next() {
+                    Some(f) => buf.push(f),
+                    None => return,
+                }
+            }
+            let mut d = c.clone();
+            for _ in (bin / 2)..bin {
+                match d.next() {
+                    Some(f) => buf.push(f),
+                    None => break,
+                }
+            }
+        }
+        _ => {
+            for _ in 0..bin {
+                match c.next() {
+                    Some(f) => buf.push(f),
+                    None => break,
+                }
+            }
+        }
+    }
+}
+
+fn windower<F, W>(out: &mut Out, cfg: &Value, ops: &[Value])
 where
     F: Frame,
     F::Sample: Enc,
     <F::Sample as Sample>::Float: Enc,
     [<F::Sample as Sample>::Float; 1]: Frame<Sample = <F::Sample as Sample>::Float>,
-    W: WindowType<f64, Output = f64>,
+    W: Kind,
 {
-    let bin = cfg["b"].as_u64().unwrap() as usize;
-    let hop = cfg["h"].as_u64().unwrap() as usize;
+    let bin0 = cfg["b"].as_u64().unwrap() as usize;
+    let hop0 = cfg["h"].as_u64().unwrap() as usize;
+    let named = cfg["ctor"].as_str() == Some("named");
     let frames: Vec<F> = cfg["frames"].as_array().unwrap().iter().map(|v| dec_frame(v)).collect();
     let mut echo = cfg.clone();
     echo["frames"] = enc_frames(&frames);
     echo["L"] = json!(frames.len());
     echo["ffmt"] = json!(<<F::Sample as Sample>::Float as Enc>::FMT);
     // the window values as the stand-alone Window iterator yields them, in the Float companion format
-    let wv = catch(|| {
-        Window::<[<F::Sample as Sample>::Float; 1], W>::new(bin).take(bin).map(|f| f.channel(0).unwrap().enc()).collect::<Vec<Value>>()
-    });
+    let window_values = |bin: usize| {
+        catch(|| {
+            Window::<[<F::Sample as Sample>::Float; 1], W>::new(bin).take(bin).map(|f| f.channel(0).unwrap().enc()).collect::<Vec<Value>>()
+        })
+    };
+    let wv = window_values(bin0);
     let built = catch(|| {
-        let _ = hann;
-        Windower::<F, W>::new(&frames[..], bin, hop)
+        if named { W::named_windower::<F>(&frames[..], bin0, hop0) } else { Windower::<F, W>::new(&frames[..], bin0, hop0) }
     });
-    let (mut wr, wv) = match (built, wv) {
-        (Some(w), Some(v)) => (w, v),
+    // up to three windower values: slot 0 = the one built here, the others are filled by `clone`
+    let mut slots: Vec<Option<Windower<F, W>>> = vec![None, None, None];
+    let wv = match (built, wv) {
+        (Some(w), Some(v)) => {
+            slots[0] = Some(w);
+            v
+        }
         _ => {
             out.line(&json!({"ev":"reset","comp":"windower","cfg":echo,"r":r_panic(),"o":{"ok":false,"wv":[]}}));
             return;
         }
     };
     out.line(&json!({"ev":"reset","comp":"windower","cfg":echo,"r":r_unit(),"o":{"ok":true,"wv":wv}}));
-    // the first `bin` frames of a chunk, into a buffer allocated beforehand
-    fn head<I: Iterator>(mut c: I, bin: usize, buf: &mut Vec<I::Item>) {
-        for _ in 0..bin {
-            match c.next() {
-                Some(f) => buf.push(f),
-                None => break,
-            }
-        }
-    }
+    let none_chunk = || json!({"k":"none","v":[]});
     for op in ops {
         let ev = op["ev"].as_str().unwrap();
+        let a = &op["a"];
+        let wi = a["w"].as_u64().unwrap_or(0) as usize;
+        let via = a["via"].as_u64().unwrap_or(0);
+        // a chunk holds the CURRENT bin size of the windower that yields it (public field, read by the driver
+        // only to size its buffers and to know how many frames of the endless chunk to take)
+        let bin = slots[wi].as_ref().map(|w| w.bin).unwrap_or(0);
         match ev {
-            "nth" | "skip" => {
-                // Iterator::nth(k) directly, or through the Skip adaptor (whose first next() is nth(k))
-                let k = op["a"]["k"].as_u64().unwrap() as usize;
+            "next" | "nth" | "skip" | "find" => {
+                // Iterator::next / nth(k) directly, through the Skip adaptor (whose first next() is nth(k)),
+                // or find() with a predicate that first holds at its k-th call
+                let k = a["k"].as_u64().unwrap_or(0) as usize;
+                let wr = slots[wi].as_mut().expect("windower slot");
                 let mut chunk: Vec<F> = Vec::with_capacity(bin);
+                let mut calls = 0usize;
                 let (r, h, _) = measured(|| {
                     catch(|| {
-                        let got = if ev == "nth" { wr.nth(k) } else { wr.by_ref().skip(k).next() };
+                        let got = match ev {
+                            "next" => wr.next(),
+                            "nth" => wr.nth(k),
+                            "skip" => wr.by_ref().skip(k).next(),
+                            _ => wr.find(|_| {
+                                calls += 1;
+                                calls > k
+                            }),
+                        };
                         match got {
                             None => false,
                             Some(c) => {
-                                head(c, bin, &mut chunk);
+                                head(c, bin, via, &mut chunk);
                                 true
                             }
                         }
@@ -125,20 +316,28 @@ where
                 let r = match r {
                     None => r_panic(),
                     Some(true) => r_some(enc_frames(&chunk)),
-                    Some(false) => json!({"k":"none","v":[]}),
+                    Some(false) => none_chunk(),
                 };
-                out.ev(ev, json!({"k": k}), r, json!({"ok": true}), h);
+                out.ev(ev, json!({"w": wi, "k": k, "via": via}), r, json!({"ok": true}), h);
             }
-            "step_by" => {
-                let st = op["a"]["s"].as_u64().unwrap() as usize;
-                let m = op["a"]["m"].as_u64().unwrap() as usize;
+            "step_by" | "take" => {
+                let st = a["s"].as_u64().unwrap_or(1) as usize;
+                let m = a["m"].as_u64().unwrap() as usize;
+                let wr = slots[wi].as_mut().expect("windower slot");
                 let mut chunks: Vec<Vec<F>> = (0..m).map(|_| Vec::with_capacity(bin)).collect();
                 let mut got = 0usize;
                 let (r, h, _) = measured(|| {
                     catch(|| {
-                        for c in wr.by_ref().step_by(st).take(m) {
-                            head(c, bin, &mut chunks[got]);
-                            got += 1;
+                        if ev == "take" {
+                            for c in wr.by_ref().take(m) {
+                                head(c, bin, via, &mut chunks[got]);
+                                got += 1;
+                            }
+                        } else {
+                            for c in wr.by_ref().step_by(st).take(m) {
+                                head(c, bin, via, &mut chunks[got]);
+                                got += 1;
+                            }
                         }
                     })
                 });
@@ -146,31 +345,64 @@ where
                     None => r_panic(),
                     Some(()) => r_items(Value::Array(chunks[..got].iter().map(|c| enc_frames(c)).collect())),
                 };
-                out.ev("step_by", json!({"s": st, "m": m}), r, json!({"ok": true}), h);
+                out.ev(ev, json!({"w": wi, "s": st, "m": m, "via": via}), r, json!({"ok": true}), h);
             }
-            "size_hint" => {
-                let (r, h, _) = measured(|| catch(|| wr.size_hint()));
+            "position" | "any" | "all" => {
+                // position / any with a predicate that first holds at its k-th call; all with one that first fails there
+                let k = a["k"].as_u64().unwrap() as usize;
+                let wr = slots[wi].as_mut().expect("windower slot");
+                let mut calls = 0usize;
+                // raw results only inside the measured window: (found, index) / the boolean as (answer, 0)
+                let (r, h, _) = measured(|| {
+                    catch(|| match ev {
+                        "position" => match wr.position(|_| {
+                            calls += 1;
+                            calls > k
+                        }) {
+                            Some(i) => (true, i),
+                            None => (false, 0),
+                        },
+                        "any" => (
+                            wr.any(|_| {
+                                calls += 1;
+                                calls > k
+                            }),
+                            0,
+                        ),
+                        _ => (
+                            wr.all(|_| {
+                                calls += 1;
+                                calls <= k
+                            }),
+                            0,
+                        ),
+                    })
+                });
+                let r = match (r, ev) {
+                    (None, _) => r_panic(),
+                    (Some((true, i)), "position") => json!({"k":"some","v": i}),
+                    (Some((false, _)), "position") => json!({"k":"none","v": 0}),
+                    (Some((x, _)), _) => r_val(json!(x)),
+                };
+                out.ev(ev, json!({"w": wi, "k": k}), r, json!({"ok": true}), h);
+            }
+            "count" => {
+                let wr = slots[wi].take().expect("windower slot");
+                let (r, h, _) = measured(|| catch(|| wr.count()));
                 let r = match r {
                     None => r_panic(),
-                    Some((lo, hi)) => r_val(json!({"lo": big_u(lo as u128), "hi": match hi {
-                        Some(x) => r_some(big_u(x as u128)),
-                        None => json!({"k":"none","v": big_u(0)}),
-                    }})),
+                    Some(n) => r_val(big_u(n as u128)),
                 };
-                out.ev("size_hint", json!({"x":0}), r, json!({"ok": true}), h);
+                out.ev("count", json!({"w": wi, "via": via}), r, json!({"ok": true}), h);
             }
-            "next" => {
+            "last" => {
+                let wr = slots[wi].take().expect("windower slot");
                 let mut chunk: Vec<F> = Vec::with_capacity(bin);
                 let (r, h, _) = measured(|| {
-                    catch(|| match wr.next() {
+                    catch(|| match wr.last() {
                         None => false,
-                        Some(mut c) => {
-                            for _ in 0..bin {
-                                match c.next() {
-                                    Some(f) => chunk.push(f),
-                                    None => break,
-                                }
-                            }
+                        Some(c) => {
+                            head(c, bin, via, &mut chunk);
                             true
                         }
                     })
@@ -178,9 +410,78 @@ where
                 let r = match r {
                     None => r_panic(),
                     Some(true) => r_some(enc_frames(&chunk)),
-                    Some(false) => json!({"k":"none","v":[]}),
+                    Some(false) => none_chunk(),
                 };
-                out.ev("next", json!({"x":0}), r, json!({"ok": true}), h);
+                out.ev("last", json!({"w": wi, "via": via}), r, json!({"ok": true}), h);
+            }
+            "fold" | "for_each" => {
+                // every remaining chunk; the buffers are sized generously from the public fields (no count is computed)
+                let wr = slots[wi].take().expect("windower slot");
+                let cap = wr.frames.len() / wr.hop.max(1) + 2;
+                let mut chunks: Vec<Vec<F>> = (0..cap).map(|_| Vec::with_capacity(bin)).collect();
+                let (r, h, _) = measured(|| {
+                    catch(|| {
+                        if ev == "fold" {
+                            wr.fold(0usize, |got, c| {
+                                if got < cap {
+                                    head(c, bin, via, &mut chunks[got]);
+                                }
+                                got + 1
+                            })
+                        } else {
+                            let mut got = 0usize;
+                            wr.for_each(|c| {
+                                if got < cap {
+                                    head(c, bin, via, &mut chunks[got]);
+                                }
+                                got += 1;
+                            });
+                            got
+                        }
+                    })
+                });
+                let r = match r {
+                    None => r_panic(),
+                    Some(got) if got <= cap => r_items(Value::Array(chunks[..got].iter().map(|c| enc_frames(c)).collect())),
+                    // more chunks than the buffers could hold: report the number as a (rejected) shape
+                    Some(got) => json!({"k":"overflow","v": got}),
+                };
+                out.ev(ev, json!({"w": wi, "via": via}), r, json!({"ok": true}), h);
+            }
+            "clone" => {
+                let to = a["to"].as_u64().unwrap() as usize;
+                let c = catch(|| slots[wi].as_ref().expect("windower slot").clone());
+                let ok = c.is_some();
+                if ok {
+                    slots[to] = c;
+                }
+                out.ev("clone", json!({"w": wi, "to": to}), if ok { r_unit() } else { r_panic() }, json!({"ok": true}), [0, 0, 0]);
+            }
+            "set_bin" => {
+                let nb = a["b"].as_u64().unwrap() as usize;
+                slots[wi].as_mut().expect("windower slot").bin = nb;
+                let (r, wv) = match window_values(nb) {
+                    Some(v) => (r_unit(), v),
+                    None => (r_panic(), vec![]),
+                };
+                out.ev("set_bin", json!({"w": wi, "b": nb}), r, json!({"ok": true, "wv": wv}), [0, 0, 0]);
+            }
+            "set_hop" => {
+                let nh = a["h"].as_u64().unwrap() as usize;
+                slots[wi].as_mut().expect("windower slot").hop = nh;
+                out.ev("set_hop", json!({"w": wi, "h": nh}), r_unit(), json!({"ok": true}), [0, 0, 0]);
+            }
+            "set_frames" => {
+                // the public `frames` field assigned a sub-slice of the execution's frame array
+                let off = a["off"].as_u64().unwrap() as usize;
+                let len = a["len"].as_u64().unwrap() as usize;
+                slots[wi].as_mut().expect("windower slot").frames = &frames[off..off + len];
+                out.ev("set_frames", json!({"w": wi, "off": off, "len": len}), r_unit(), json!({"ok": true}), [0, 0, 0]);
+            }
+            "size_hint" => {
+                let wr = slots[wi].as_ref().expect("windower slot");
+                let (r, h, _) = measured(|| catch(|| wr.size_hint()));
+                out.ev("size_hint", json!({"w": wi}), hint_json(r), json!({"ok": true}), h);
             }
             _ => panic!("unknown windower op {}", ev),
         }
@@ -273,21 +574,21 @@ pub fn exec(out: &mut Out, ex: &[Value]) {
         "windower" => {
             let ch = cfg["ch"].as_u64().unwrap_or(1);
             macro_rules! go {
-                ($w:ty, $hann:expr) => {
+                ($w:ty) => {
                     match (fmt, ch) {
-                        ("f64", 1) => windower::<[f64; 1], $w>(out, cfg, ops, $hann),
-                        ("f32", 1) => windower::<[f32; 1], $w>(out, cfg, ops, $hann),
-                        ("i16", 1) => windower::<[i16; 1], $w>(out, cfg, ops, $hann),
-                        ("f64", 2) => windower::<[f64; 2], $w>(out, cfg, ops, $hann),
-                        ("f32", 2) => windower::<[f32; 2], $w>(out, cfg, ops, $hann),
-                        ("i16", 2) => windower::<[i16; 2], $w>(out, cfg, ops, $hann),
+                        ("f64", 1) => windower::<[f64; 1], $w>(out, cfg, ops),
+                        ("f32", 1) => windower::<[f32; 1], $w>(out, cfg, ops),
+                        ("i16", 1) => windower::<[i16; 1], $w>(out, cfg, ops),
+                        ("f64", 2) => windower::<[f64; 2], $w>(out, cfg, ops),
+                        ("f32", 2) => windower::<[f32; 2], $w>(out, cfg, ops),
+                        ("i16", 2) => windower::<[i16; 2], $w>(out, cfg, ops),
                         _ => panic!("unsupported frame type {} x {}", fmt, ch),
                     }
                 };
             }
             match kind {
-                "hann" => go!(Hann, true),
-                "rect" => go!(Rectangle, false),
+                "hann" => go!(Hann),
+                "rect" => go!(Rectangle),
                 _ => panic!("unknown window kind {}", kind),
             }
         }
@@ -296,6 +597,13 @@ pub fn exec(out: &mut Out, ex: &[Value]) {
 }
 
 // ---------------------------------------------------------------------------------------- gen
+
+/// the reset line with the constructor to use ("new" = Windower::new, "named" = Windower::hann / ::rectangle)
+fn reset_c(reset: &Value, named: bool) -> Value {
+    let mut r = reset.clone();
+    r["cfg"]["ctor"] = json!(if named { "named" } else { "new" });
+    r
+}
 
 pub fn gen(rng: &mut Rng, tier: &str, execs: &mut Vec<Vec<Value>>) {
     let thorough = tier == "thorough";
@@ -311,10 +619,32 @@ pub fn gen(rng: &mut Rng, tier: &str, execs: &mut Vec<Vec<Value>>) {
             if n > 64 && kind == "rect" && fmt == "f32" {
                 continue;
             }
-            execs.push(vec![
-                json!({"ev":"reset","comp":"window","cfg":{"kind":kind,"fmt":fmt,"n":n}}),
+            let mut ex = vec![
+                json!({"ev":"reset","comp":"window","cfg":{"kind":kind,"fmt":fmt,"n":n,"ctor": if rng.chance(1, 2) { "named" } else { "new" }}}),
                 json!({"ev":"take","a":{"n":n}}),
-            ]);
+            ];
+            if rng.chance(1, 2) {
+                // other instances (a fresh one, clones) advanced in other ways than next(): nth, step_by,
+                // by_ref().take, the public phase field re-assigned
+                ex.push(json!({"ev":"new","a":{"w":1}}));
+                let mut have2 = false;
+                for _ in 0..(4 + rng.below(5)) {
+                    let w = if have2 { 1 + rng.below(2) } else { 1 };
+                    ex.push(match rng.below(8) {
+                        0 => json!({"ev":"next","a":{"w":w}}),
+                        1 | 2 => json!({"ev":"nth","a":{"w":w,"k":rng.below(n / 3 + 2)}}),
+                        3 => json!({"ev":"step_by","a":{"w":w,"s":1 + rng.below(3),"m":1 + rng.below(4)}}),
+                        4 => json!({"ev":"takeby","a":{"w":w,"m":1 + rng.below(4)}}),
+                        5 => json!({"ev":"size_hint","a":{"w":w}}),
+                        6 => {
+                            have2 = true;
+                            json!({"ev":"clone","a":{"w":1,"to":2}})
+                        }
+                        _ => json!({"ev":"rewind","a":{"w":w}}),
+                    });
+                }
+            }
+            execs.push(ex);
         }
     }
     // windowers: random L <= 4096, bins 2..64, hops chosen so that the number of chunks stays moderate
@@ -402,6 +732,123 @@ pub fn gen(rng: &mut Rng, tier: &str, execs: &mut Vec<Vec<Value>>) {
             }
             ex.push(json!({"ev":"next","a":{}}));
             ex.push(json!({"ev":"size_hint","a":{}}));
+            execs.push(ex);
+        }
+        // round 4: the same windower used as a VALUE in the other ways Rust offers
+        let hint = |w: u64| json!({"ev":"size_hint","a":{"w":w}});
+        let next = |w: u64, via: u64| json!({"ev":"next","a":{"w":w,"via":via}});
+        let drain = |ex: &mut Vec<Value>, w: u64, n: usize, rng: &mut Rng| {
+            for _ in 0..n {
+                ex.push(hint(w));
+                ex.push(next(w, rng.below(7)));
+            }
+        };
+        let terms = ["last", "count", "fold", "for_each"];
+        // (A) a clone taken mid-run, both continued interleaved (and a clone of the clone), one of them finally
+        //     consumed by last / count / fold / for_each
+        {
+            let mut ex = vec![reset_c(&reset, rng.chance(1, 2))];
+            for _ in 0..rng.below(span.min(3) + 1) {
+                ex.push(next(0, 0));
+            }
+            ex.push(json!({"ev":"clone","a":{"w":0,"to":1}}));
+            ex.push(hint(1));
+            let third = rng.chance(1, 2);
+            let mut left = span + 3;
+            while left > 0 {
+                let w = rng.below(if third { 3 } else { 2 });
+                if w == 2 && ex.iter().all(|e| e["a"]["to"] != 2) {
+                    ex.push(json!({"ev":"clone","a":{"w":1,"to":2}}));
+                }
+                match rng.below(5) {
+                    0 => ex.push(json!({"ev":"nth","a":{"w":w,"k":rng.below(3),"via":rng.below(7)}})),
+                    1 => ex.push(json!({"ev":"take","a":{"w":w,"m":1 + rng.below(3),"via":rng.below(7)}})),
+                    _ => ex.push(next(w, rng.below(7))),
+                }
+                ex.push(hint(w));
+                if w == 0 {
+                    left -= 1;
+                }
+            }
+            let victim = rng.below(2);
+            ex.push(json!({"ev": *rng.pick(&terms), "a":{"w":victim,"via":rng.below(7)}}));
+            drain(&mut ex, 1 - victim, (span as usize + 3).min(l / h + 3), rng);
+            execs.push(ex);
+        }
+        // (B) the searching methods aimed around the end, then a consuming method on what is left
+        for v in 0..2u64 {
+            let mut ex = vec![reset_c(&reset, v == 1), hint(0)];
+            let pre = rng.below(span.min(2) + 1);
+            for _ in 0..pre {
+                ex.push(next(0, 1));
+            }
+            let j = match rng.below(3) {
+                0 => span.saturating_sub(pre),          // the chunk that may end exactly at frame L
+                1 => (span + 1).saturating_sub(pre),    // one past it
+                _ => rng.below(span + 2),
+            };
+            let e = *rng.pick(&["find", "position", "any", "all"]);
+            if v == 0 {
+                ex.push(json!({"ev": e, "a":{"w":0,"k":j,"via":rng.below(7)}}));
+                ex.push(hint(0));
+            } else if j > 0 {
+                ex.push(json!({"ev": e, "a":{"w":0,"k":j - 1,"via":rng.below(7)}}));
+                ex.push(hint(0));
+            }
+            ex.push(json!({"ev": terms[(k + v as usize) % 4], "a":{"w":0,"via":rng.below(7)}}));
+            execs.push(ex);
+        }
+        // (C) the public fields assigned between calls: bin (2..64), hop (never so small that the run explodes),
+        //     frames (any sub-slice of the array, also a longer one than what was left = rewinding)
+        for v in 0..3u64 {
+            let mut ex = vec![reset_c(&reset, v == 2), hint(0)];
+            let mut smallest_hop = h;
+            for round in 0..(1 + rng.below(3)) {
+                for _ in 0..rng.below(span.min(3) + 1) {
+                    ex.push(next(0, rng.below(7)));
+                    ex.push(hint(0));
+                }
+                let what = if round == 0 { v } else { rng.below(3) };
+                match what {
+                    0 => {
+                        let nb = match rng.below(4) {
+                            0 => 2,
+                            1 => b + 1,
+                            2 => (b.max(3)) - 1,
+                            _ => 2 + rng.below(63) as usize,
+                        };
+                        ex.push(json!({"ev":"set_bin","a":{"w":0,"b":nb}}));
+                    }
+                    1 => {
+                        let nh = match rng.below(4) {
+                            0 => min_hop,
+                            1 => b.max(min_hop),
+                            2 => h + 1,
+                            _ => min_hop + rng.below(3 * min_hop as u64 + 1) as usize,
+                        };
+                        smallest_hop = smallest_hop.min(nh);
+                        ex.push(json!({"ev":"set_hop","a":{"w":0,"h":nh}}));
+                    }
+                    _ => {
+                        let off = match rng.below(3) {
+                            0 => 0,
+                            _ => rng.below(l as u64 + 1) as usize,
+                        };
+                        let len = match rng.below(3) {
+                            0 => l - off,
+                            _ => rng.below((l - off) as u64 + 1) as usize,
+                        };
+                        ex.push(json!({"ev":"set_frames","a":{"w":0,"off":off,"len":len}}));
+                    }
+                }
+                ex.push(hint(0));
+                if rng.chance(1, 3) {
+                    // a clone taken after the assignment runs to its end on its own
+                    ex.push(json!({"ev":"clone","a":{"w":0,"to":1}}));
+                    drain(&mut ex, 1, l / smallest_hop + 3, rng);
+                }
+            }
+            drain(&mut ex, 0, l / smallest_hop + 3, rng);
             execs.push(ex);
         }
     }
